@@ -79,8 +79,8 @@ func c19LoadWords(n int) {
 	}
 }
 
-func VerifHarness_C19_LoadWords4()  { c19LoadWords(verifIntRange("len", 0, 4)) }
-func VerifHarness_C19_LoadWords8()  { c19LoadWords(verifIntRange("len", 5, 8)) }
+func VerifHarness_C19_LoadWords4() { c19LoadWords(verifIntRange("len", 0, 4)) }
+func VerifHarness_C19_LoadWords8() { c19LoadWords(verifIntRange("len", 5, 8)) }
 
 func c19LoadCmds(n int) {
 	path := verifFSRoot() + "/assets/cmd_embeddings.bin"
